@@ -35,6 +35,8 @@ TRANSPARENT = {
     "std::iter::Iterator::peekable": 0,
     "std::iter::Iterator::skip": 0,
     "std::iter::Iterator::take": 0,
+    # element access through Index/IndexMut is followed into the indexed value with a `[i]` path element
+    "@index": 0,
 }
 
 
@@ -379,6 +381,12 @@ class Body:
                 if idx is not None and idx < len(t["args"]) and t["args"][idx]["k"] in ("copy", "move"):
                     for (r, p) in self.trace(t["args"][idx]["place"], through, _seen, depth + 1):
                         out.add((r, p + path))
+                elif ("@index" in through and t["func"].get("declared") in ("std::ops::Index::index", "std::ops::IndexMut::index_mut")
+                      and len(t["args"]) == 2 and t["args"][0]["k"] in ("copy", "move")):
+                    ix = t["args"][1]
+                    lab = "[%s]" % (ix.get("val") if ix["k"] == "const" and ix.get("val") is not None else "_")
+                    for (r, p) in self.trace(t["args"][0]["place"], through, _seen, depth + 1):
+                        out.add((r, p + (lab,) + path))
                 else:
                     item = None
                     if (t["func"].get("declared") == "std::iter::Iterator::next" and len(path) >= 2
